@@ -342,8 +342,13 @@ def placement(ctx, facts, cfg):
         adt = fn.impl_self_adt
         # configured bases: arguments 4,5 of the explicit reset in a helper of the same type
         bases = None
+        # (the helper that configures the work object may live on another private type: anything reachable from this decoder's
+        # own new / reset counts)
+        from .core import callgraph as _cgf
+        own_roots = [q_ for q_, g_ in facts.fns.items() if g_.impl_self_adt == adt and g_.impl_trait == 'rate::RateDecoder' and g_.name in ('new', 'reset')]
+        reach_own, _ = _cgf(facts).reachable(own_roots) if own_roots else (set(), None)
         for q, g in facts.fns.items():
-            if g.impl_self_adt != adt:
+            if g.impl_self_adt != adt and q not in reach_own:
                 continue
             for b, t in g.body.calls():
                 if t['callee'].get('path') == full and len(t['args']) >= 6:
